@@ -1,0 +1,59 @@
+//! Verification hooks (compiled only with `--cfg terohuttunen_proto_vulcan_verif`).
+//!
+//! * a thread-local step budget/counter for the search engine, so that a starved or
+//!   diverging search becomes a deterministic, reportable outcome instead of a hang;
+//! * a thread-local iteration-order permutation applied where the solver iterates over
+//!   hash-based collections, so that order-dependent behaviour can be enumerated and replayed.
+use std::cell::Cell;
+
+/// Panic payload raised by `tick()` when the budget is exhausted.
+#[derive(Debug, Clone, Copy)]
+pub struct BudgetExhausted;
+
+thread_local! {
+    static BUDGET: Cell<u64> = Cell::new(u64::MAX);
+    static STEPS: Cell<u64> = Cell::new(0);
+    static PERM: Cell<u64> = Cell::new(0);
+}
+
+/// Sets the number of engine steps allowed from now on and resets the step counter.
+pub fn set_budget(n: u64) {
+    BUDGET.with(|b| b.set(n));
+    STEPS.with(|s| s.set(0));
+}
+
+/// Engine steps taken since the last `set_budget`.
+pub fn steps() -> u64 {
+    STEPS.with(|s| s.get())
+}
+
+/// Called once per engine step / solver loop iteration.
+pub fn tick() {
+    STEPS.with(|s| s.set(s.get().wrapping_add(1)));
+    let left = BUDGET.with(|b| b.get());
+    if left == 0 {
+        std::panic::panic_any(BudgetExhausted);
+    }
+    if left != u64::MAX {
+        BUDGET.with(|b| b.set(left - 1));
+    }
+}
+
+/// Selects the iteration-order permutation (0 = leave the collection's own order).
+pub fn set_permutation(p: u64) {
+    PERM.with(|c| c.set(p));
+}
+
+/// Reorders `v` according to the selected permutation index: 1 = reversed, otherwise a
+/// rotation by `p - 1` followed by reversal when `p` is odd.
+pub fn permute<T>(v: &mut Vec<T>) {
+    let p = PERM.with(|c| c.get());
+    if p == 0 || v.len() < 2 {
+        return;
+    }
+    let n = v.len();
+    v.rotate_left(((p - 1) as usize / 2) % n);
+    if p % 2 == 1 {
+        v.reverse();
+    }
+}
